@@ -56,6 +56,11 @@ def run(idx: Index, rep: Report, tier: str) -> None:
     add = idx.func(STN + ".add")
     rep.note_function(add.qualname)
     news = [c for c in walk_no_nested(add.node) if isinstance(c, ast.Call) and call_name(c) == "DeltaNeighbors"]
+    if not news:  # … or in a private helper of the class that add() calls
+        stn_cls = idx.cls(STN)
+        for c in walk_no_nested(add.node):
+            if isinstance(c, ast.Call) and isinstance(c.func, ast.Attribute) and norm(c.func.value) == "self" and c.func.attr.startswith("_") and c.func.attr in stn_cls.methods:
+                news += [x for x in walk_no_nested(stn_cls.methods[c.func.attr].node) if isinstance(x, ast.Call) and call_name(x) == "DeltaNeighbors"]
     ok = bool(news) and all(len(c.args) == 3 for c in news)
     rep.check(ok, rule2, "add() prepends a new cell pointing to the old list", add.loc(news[0]) if news else add.loc(), construct=norm(news[0]) if news else "", function=add.qualname)
 
